@@ -6,7 +6,7 @@ from . import common, gen
 from .common import rat, fmt_list, fmt_nd, fmt_grids, parse_list, parse_nd, close
 
 PROP = 'C02'
-GENERATED = ['Coeffs']
+GENERATED = ['Coeffs', 'GridReal']
 NEEDS_BUILD = True
 DRIVER_MODULES = ['Integ']
 AX = 'xyzab'
@@ -340,6 +340,17 @@ def l3_layout(chk, ctx, rng, n):
         if not ok:
             chk.fail(key + ':differs', 'integrating a %s view differs from integrating its C-contiguous copy by %.3g (scale %.3g)' % (lay, err, scale), inp)
 
+def l3_default_grid(chk, ctx):
+    """C02_default_grid_ok on the float grid: default_grid(pts) starts at exactly 0, ends at exactly 1 and is strictly increasing"""
+    dadi = ctx['dadi']
+    for pts in list(range(2, 130)) + [200, 500, 1000, 2001]:
+        for crwd in (None, 2.0, 8.0, 20.0):
+            xx = dadi.Numerics.default_grid(pts) if crwd is None else dadi.Numerics.exponential_grid(pts, crwd)
+            chk.l3(('default-grid', pts > 10, crwd))
+            if len(xx) != pts or xx[0] != 0.0 or xx[-1] != 1.0 or not np.all(np.diff(xx) > 0):
+                chk.fail('default_grid:not-increasing-0-1', 'default_grid(%d%s) is not strictly increasing from exactly 0 to exactly 1' % (pts, '' if crwd is None else ', crwd=%g' % crwd),
+                         dict(pts=pts, crwd=crwd, grid=xx))
+
 def run(chk, ctx):
     tier = ctx['tier']
     rng = common.Rng(ctx['seed'], 'C02')
@@ -361,6 +372,7 @@ def run(chk, ctx):
     l3_const_fn(chk, ctx, rng, 12 if tier == 'quick' else 60)
     l3_nonneg(chk, ctx, rng, 15 if tier == 'quick' else 100)
     l3_layout(chk, ctx, rng, 12 if tier == 'quick' else 72)
+    l3_default_grid(chk, ctx)
 
 def replay(chk, ctx, data):
     inp = data.get('input', {})
